@@ -749,6 +749,10 @@ class AsyncFIXConnection:
 
         self._journaler.persist_msg(raw_msg, self._session, MessageDirection.INBOUND)
 
+        if msg.msg_type == FMsg.SEQUENCERESET:
+            # journaled under its own MsgSeqNum, but next expected is NewSeqNo
+            self._journaler.store_seq_num(self._session)
+
     async def _process_testrequest(self, testreq_msg: FIXMessage):
         """Handles TestRequest(35=1).
 
